@@ -171,6 +171,33 @@ func runC06(c *Ctx) {
 			}
 		}))
 	}
+	// handshake garbage: a peer without a session sends a malformed initialize, then goes on in whatever
+	// session the server handed out for it (initialized notification, a request)
+	if adv.kind == "streamable" {
+		var inits []genInput
+		for _, in := range inputs {
+			if in.Method == "initialize" && in.Class != "valid" {
+				inits = append(inits, in)
+			}
+		}
+		bad := inits[(int(c.Run)/len(allModes))%len(inits)]
+		c.SetPlan("handshake_garbage", bad.Desc)
+		goodTasks = append(goodTasks, s.Go("handshake-garbage", func() {
+			ctx, cancel := context.WithTimeout(context.Background(), 2*time.Minute)
+			defer cancel()
+			r := rawDo(c, ctx, "POST", "http://srv/mcp", jsonHdr, bad.Raw)
+			if r.Err != nil {
+				return
+			}
+			sid := r.Header.Get("Mcp-Session-Id")
+			if sid == "" {
+				return
+			}
+			rawDo(c, ctx, "POST", "http://srv/mcp", withSession(jsonHdr, sid), rpcNotif("notifications/initialized", nil))
+			rawDo(c, ctx, "POST", "http://srv/mcp", withSession(jsonHdr, sid), rpcNotif("notifications/initialized", nil))
+			rawDo(c, ctx, "POST", "http://srv/mcp", withSession(jsonHdr, sid), rpcReq("hg", "tools/list", nil))
+		}))
+	}
 	all := append(goodTasks, advTask)
 	for _, a := range s.WaitTasks(25*time.Minute, all...) {
 		s.Violate("C06|stuck|mode="+mode, "%s did not finish (deadlock or lost answer)", a.Name)
@@ -178,15 +205,29 @@ func runC06(c *Ctx) {
 	if lb := s.LockBlocked(); len(lb) > 0 {
 		s.Violate("C06|deadlock|mode="+mode, "tasks blocked on locks at the end: %v", lb)
 	}
-	// a fresh connection is served too
-	fresh, err := newRawPeer(c, w, "fresh", false)
-	if err != nil {
-		s.Violate("C06|fresh-connection-dead|mode="+mode, "after the batch a fresh peer cannot complete the handshake: %v", err)
-	} else {
-		if err := fresh.ping("fresh"); err != nil {
-			s.Violate("C06|fresh-connection-dead|mode="+mode, "after the batch a fresh peer's ping is not served: %v", err)
+	// a fresh connection is served too (in a task of its own: a wedged server must yield a verdict, not a capped run)
+	freshDone := false
+	freshTask := s.Go("fresh-peer", func() {
+		fresh, err := newRawPeer(c, w, "fresh", false)
+		if err != nil {
+			s.Violate("C06|fresh-connection-dead|mode="+mode, "after the batch a fresh peer cannot complete the handshake: %v", err)
+		} else {
+			if err := fresh.ping("fresh"); err != nil {
+				s.Violate("C06|fresh-connection-dead|mode="+mode, "after the batch a fresh peer's ping is not served: %v", err)
+			}
+			fresh.close()
 		}
-		fresh.close()
+		// ... and a fresh library client can shake hands
+		cl := w.newClient()
+		if err := initClient(c, cl); err != nil {
+			s.Violate("C06|fresh-client-dead|mode="+mode, "after the batch a fresh library client cannot initialize: %v", err)
+		}
+		cl.API.Close()
+		freshDone = true
+	})
+	s.WaitTasks(8*time.Minute, freshTask)
+	if !freshDone {
+		s.Violate("C06|fresh-connection-stuck|mode="+mode, "after the batch the handshake of a fresh peer never completes (the server is wedged); tasks blocked on locks: %v", s.LockBlocked())
 	}
 	s.Settle(50 * time.Millisecond)
 	after := len(s.LiveLibTasks())
